@@ -135,6 +135,15 @@ Example layout_example :
    93; 94; 99; 100; 102; 103; 126; 127; 129; 130; 135; 136; 138; 139].
 Proof. vm_compute. reflexivity. Qed.
 
+(** what D2 was: the same pipeline WITHOUT moving the points axis behind the first particle
+    axis puts, already for P=2, the evaluation at point 0 of pair (1,0) where point (0,1) of
+    pair (0,0) belongs (so the theorem above is not a triviality of reshape) *)
+Example moveaxis_is_needed :
+  let E := of_list 0 [4; 2; 2; 3; 3] (seq 0 144) in
+  get (reshape [2; 2; 2; 2; 2; 2] (trunc_last2 2 2 E)) [0; 0; 1; 0; 0; 0] = get E [0; 1; 0; 0; 0] /\
+  get (interp_layout 2 3 E) [0; 0; 1; 0; 0; 0] = get E [1; 0; 0; 0; 0].
+Proof. vm_compute. split; reflexivity. Qed.
+
 (** ** 2b. The interpolated operator acts on low-order distributions like the source
        operator, evaluated at the new grid points (all P, all sizes; over R) *)
 Section Action.
@@ -286,9 +295,11 @@ Theorem interp_pairwise_independent :
   get (interpolated P ns C phi psi Nt rz rp) [a; al; be; b; j; k] =
   get (interpolated P' ns C' phi psi Nt rz rp) [a'; al; be; b'; j; k].
 Proof.
-  intros. unfold interpolated.
+  intros P P' ns C C' phi psi Nt rz rp a b a' b' al be j k Hn Ha Hb Ha' Hb' Hal Hbe Hj Hk Hsame.
+  unfold interpolated.
   rewrite !(interp_entry_is_pair_evaluation 0%R 0%R) by lia.
-  cbn [ev_card]. apply Rsum_ext; intros. apply Rsum_ext; intros. rewrite H8. reflexivity.
+  cbn [ev_card]. apply Rsum_ext; intros x Hx. apply Rsum_ext; intros y Hy.
+  rewrite Hsame. reflexivity.
 Qed.
 Print Assumptions interp_pairwise_independent.
 
